@@ -180,6 +180,33 @@ async fn single_ops(ctx: &Ctx, rng: &mut Rng, epmd: &net::EpmdTable, offers: (bo
         let from_pid = ExternalPid::new(Atom::new("rust@127.0.0.1"), uid as u32, 0, 9);
         let reference = ExternalReference::new(Atom::new("rust@127.0.0.1"), 9, vec![uid as u32, 2, 3][..1 + rng.below(3)].to_vec());
         let pidv = |p: &ExternalPid| val_of(&OwnedTerm::Pid(p.clone()));
+        // now and then an operation that cannot be sent (an argument the format cannot carry, behind parts that
+        // can be encoded): it must fail, put nothing on the wire and leave the next operation's frame as it would
+        // have been (in header mode: no cache entry the peer never saw may be relied on later)
+        if k % 7 == 3 {
+            let too_long = "x".repeat(*rng.pick(&[65_536usize, 70_000]));
+            let fresh = format!("fresh_atom_{}", uid);
+            let bad = OwnedTerm::Tuple(vec![OwnedTerm::atom(&fresh), OwnedTerm::Integer(1), OwnedTerm::Binary(vec![7; 40]), OwnedTerm::atom(&too_long)]);
+            let (what, r) = match rng.below(3) {
+                0 => ("send:payload-with-an-atom-the-format-cannot-carry", conn.send_message(from_pid.clone(), to_pid.clone(), bad).await),
+                1 => ("send_to_name:payload-with-an-atom-the-format-cannot-carry", conn.send_to_name(from_pid.clone(), Atom::new("rex"), bad).await),
+                _ => ("send_to_name:name-the-format-cannot-carry", conn.send_to_name(from_pid.clone(), Atom::new(&too_long), OwnedTerm::atom(&fresh)).await),
+            };
+            ctx.eval(1);
+            ctx.class(&format!("single/unsendable/{}/{}", what, if header_mode { "header" } else { "pass-through" }));
+            let stray = tokio::time::timeout(Duration::from_millis(20), rx.recv()).await;
+            match (r.is_ok(), stray) {
+                (false, Ok(Some(f))) => ctx.viol(&format!("C07:failed-operation-wrote-a-frame:{}", what), "an operation that returned an error put a frame on the wire", json!({"op": what, "frame": hex_cap(&f, 64), "frame_len": f.len()})),
+                (true, Ok(Some(f))) => {
+                    // reported as sent: then it has to be readable
+                    if let Err(e) = read_frame(&f, header_mode, &mut cache) {
+                        ctx.viol(&format!("C07:unparsable:{}", what), "an operation with an argument the format cannot carry was reported successful and its frame is not well-formed", json!({"op": what, "error": e, "frame": hex_cap(&f, 64)}));
+                    }
+                }
+                (true, _) => ctx.viol(&format!("C07:no-frame:{}", what), "the operation returned Ok but the peer received no frame", json!({"op": what})),
+                (false, _) => {}
+            }
+        }
         let issued: Issued;
         let res = match op {
             0 => {
